@@ -975,7 +975,8 @@ RULES = {
            "cycles and self-dependencies / never / dense round maps), provider-call budget N+2 per reference; "
            "non-trivial = at least one Postponed answer was given, or the load failed as unresolvable; distinct = "
            "distinct (family, mode, provider answer trace)",
-    "C34": "W1 worlds loaded with textx_tools_support=True; non-trivial = the closure has references and at least "
+    "C34": "W1 worlds loaded with textx_tools_support=True, in one episode of three with a contextual name (2-3 "
+           "references of one file written with the same text, mapped by the provider to different targets); non-trivial = the closure has references and at least "
            "one of: a multi-part reference name, nested objects sharing a span, a postponed reference; distinct = "
            "distinct (family, mode, provider answer trace)",
 }
